@@ -364,6 +364,35 @@ pub fn many_member_space() -> TargetSpace {
     })
 }
 
+/// Compounds of every member count 1..=`max` (see `gens::dense_bound`): flat, flat with the last member padded, and
+/// the same list as a nested compound followed by a BYE.
+pub fn every_member_count_space(max: usize) -> TargetSpace {
+    TargetSpace::new("compound-every-member-count", max as u64 * 3, false, move |idx| {
+        use Member::*;
+        let n = (idx / 3) as usize + 1;
+        let kind = idx % 3;
+        let pool = [
+            Plain(Pkt::Bye { ssrcs: vec![], reason: String::new(), pad: 0 }),
+            Plain(Pkt::Rr { ssrc: 0x0102_0304, blocks: vec![], pad: 0 }),
+            Plain(Pkt::App { ssrc: 7, subtype: 3, name: "name".into(), data: vec![], pad: 0 }),
+            Plain(Pkt::Bye { ssrcs: vec![1, 2, 3], reason: String::new(), pad: 0 }),
+            Wrapped(Pkt::Unknown { pt: 207, count: 2, data: vec![9, 8, 7, 6, 5, 4, 3, 2], pad: 0 }),
+        ];
+        let mut ms: Vec<Member> = (0..n).map(|i| pool[(i * 2 + i / 16 + n) % pool.len()].clone()).collect();
+        match kind {
+            1 => {
+                ms.pop();
+                ms.push(Plain(Pkt::Rr { ssrc: 5, blocks: vec![], pad: 8 }));
+            }
+            2 => {
+                ms = vec![Nested(ms), Plain(Pkt::Bye { ssrcs: vec![0xB1E], reason: String::new(), pad: 0 })];
+            }
+            _ => {}
+        }
+        Target::Compound(ms)
+    })
+}
+
 pub fn compound_space(depth: u32) -> TargetSpace {
     let menu = member_menu();
     let k = menu.len() as u64;
@@ -447,6 +476,7 @@ pub fn all_target_spaces(tier: Tier, seed: u64) -> Vec<TargetSpace> {
     v.extend(part_spaces(tier, seed));
     v.push(compound_space(tier.pick(3, 4)));
     v.push(many_member_space());
+    v.push(every_member_count_space(tier.pick(450, 1200)));
     v.push(ext_space());
     v
 }
